@@ -172,6 +172,16 @@ CHECKS = {
             "writers are gated at Python file-operation granularity by the harness's scheduler; base_hash on an absent file is vacuous "
             "by the documented contract",
             "DESIGN.md §3 C17"),
+    "C19": ("exploration",
+            "generated trees x path strings under a file-operation trace with before/after snapshots; exhaustive short schema names; reference and URI pools",
+            "Path strings built from a segment pool (.., every symlink kind incl. dangling and self-referential, allowed/disallowed/"
+            "compound/upper-case extensions, NUL, over-long) are handed to nine entry points over a planted sandbox + outside tree: "
+            "a path the harness classifies as traversal / symlink / wrong extension must be refused with no open/create/replace/"
+            "unlink in the trace and no change of either tree; no call may mutate or leak the outside tree. Schema names of <=3 "
+            "characters over 66 symbols (quick: <=2 + sample) may only open files in schema directories; frozen references must "
+            "hash to their digest; SOURCE_URIs must stay inside the base (incl. a sibling directory whose name extends the base's).",
+            "the harness's own lexical + lstat classification of a path is the oracle for 'must be refused'",
+            "DESIGN.md §3 C19"),
 }
 
 NOT_YET = {
